@@ -4,4 +4,4 @@ Extraction Language OCaml.
 Extraction "c19_model.ml"
   prelude_byte_of_N prelude_N_of_byte prelude_Z_of_N prelude_Z_opp prelude_nat_of_N prelude_N_of_nat
   run clean_pass clean_pass_old clean add_blob cands used_mb
-  net_bytes content_bytes private_bytes total_bytes mb credited freed_bytes migrated_db setup.
+  net_bytes content_bytes private_bytes total_bytes mb credited freed_bytes migrated_db setup recover effective assign.
